@@ -63,6 +63,13 @@ def main(tier, seed):
                 p = idiom_loop(rng, rng.choice([345, 350]), code=ch) if rng.random() < 0.5 else push_seq(ch) + [(5, rng.choice([400, 600]), rng.choice([1, 2]), None)]
             else:
                 p = rand_prog(rng, grammar=True)
+            mix = random.Random(seed * 1000003 + k)              # own stream: the main one stays as it was
+            if mix.random() < 0.07:
+                # runs of line-structure characters on one stream from one entered line: CR LF, LF CR, tab, NEL, line/paragraph
+                # separators next to letters (seeded change C12-crlf-in-line-output-normalised)
+                to = mix.choice([1, 1, 2])
+                p = []
+                for _ in range(mix.randint(3, 7)): p += print_char(mix.choice([13, 10, 13, 10, 9, 65, 66, 32, 0x85, 0x2028, 0x2029, 11, 12]), to)
             if rng.random() < 0.15:
                 # begins by relying on stack 3 being the selected one: a value sent to stack 3 explicitly, then printed from the
                 # selected stack (seeded change C12-clear-keeps-selected-stack)
